@@ -71,9 +71,10 @@ func ScratchRoot() string {
 }
 
 func NewScratchDir(tag string) string {
-	n := atomic.AddInt64(&dirSeq, 1)
-	d := filepath.Join(ScratchRoot(), fmt.Sprintf("verif-%d-%s-%d", os.Getpid(), tag, n))
-	if err := os.MkdirAll(d, 0o755); err != nil {
+	atomic.AddInt64(&dirSeq, 1)
+	// a unique, fresh directory: names derived from the pid alone collide with leftovers of killed processes
+	d, err := os.MkdirTemp(ScratchRoot(), fmt.Sprintf("verif-%d-%s-", os.Getpid(), tag))
+	if err != nil {
 		panic(err)
 	}
 	return d
